@@ -5,13 +5,14 @@
    Full statement of the property at precision 0, per helper:
      for every s in the number grammar, the result is in the grammar (Decimal: without exponent),
      denotes exactly the same rational, and is not longer than s.
-   Proved here: the Decimal half in full (decimal_exact) and the two lexer theorems every number
-   statement rests on. The Number half (number_exact, same statement with number0) is proved in
-   Num/ProofsNumber.v once complete and is then added below; until then Number is decided by the
-   exhaustive enumeration of the oracle run (search, not proof) — see evidence.explanation.
+   Proved here: BOTH halves in full — decimal_exact (Decimal) and number_exact (Number, all four print shapes: D e n,
+   D000, .D e-n, .000D / D1.D2, original mantissa with re-printed exponent; exponents up to +-2^63, the overflow guard,
+   leading zeros in exponents, signs) — and the two lexer theorems every number statement rests on.  number_exact carries
+   the bound zlen s <= 10^25, an artefact of the model's decimal printer (show_nat, fuel 25) shown necessary by a proved
+   symbolic counterexample of 10^25 + 1 bytes; a Go slice is shorter than 2^63 < 10^25 bytes, so the bound always holds.
    Precision > 0 (half-ulp bound) and arbitrary bytes (no panic, no write outside the slice) are not
    modelled: they are decided by the exhaustive/random oracle run only. *)
-From MV Require Import Base.MvBytes Num.NumModel Num.NumSpec Num.NumProofs.
+From MV Require Import Base.MvBytes Num.NumModel Num.NumSpec Num.NumProofs Num.NumberLemmas Num.NumberProofs.
 
 (* the recogniser accepts exactly the well-formed lexemes and determines their structure *)
 Theorem lexer_sound : forall s p, lex_number s = Some p -> s = unlex p /\ wf_lexed p.
@@ -28,6 +29,23 @@ Theorem decimal_exact : forall s p, lex_number s = Some p -> l_exp p = false ->
              val_eq (value p') (value p) /\ zlen (decimal0 s) <= zlen s.
 Proof. exact decimal0_exact. Qed.
 Print Assumptions decimal_exact.
+
+(* Number(s, 0): in the grammar, exactly the same rational, never longer — for every lexeme of the grammar *)
+Theorem number_exact : forall s p, lex_number s = Some p -> zlen s <= 10 ^ 25 ->
+  exists p', lex_number (number0 s) = Some p' /\ val_eq (value p') (value p) /\ zlen (number0 s) <= zlen s.
+Proof. exact NumberProofs.number0_exact. Qed.
+Print Assumptions number_exact.
+
+(* the bound is an artefact of the model's printer, and necessary for it: 1 followed by 10^25 zeros *)
+Theorem number_exact_bound_needed : exists s p, lex_number s = Some p /\ zlen s = 10 ^ 25 + 1 /\
+  forall p', lex_number (number0 s) = Some p' -> ~ val_eq (value p') (value p).
+Proof. exact NumberProofs.number0_value_needs_bound. Qed.
+Print Assumptions number_exact_bound_needed.
+
+Example number_exact_nonvacuous :
+  let s := [49; 50; 48; 48; 48; 48; 101; 45; 50] (* "120000e-2" *) in
+  (exists p, lex_number s = Some p) /\ number0 s = [49; 50; 48; 48] (* "1200" *).
+Proof. split; [eexists; reflexivity | vm_compute; reflexivity]. Qed.
 
 (* non-vacuity: a concrete lexeme meets the hypotheses and is really rewritten *)
 Example decimal_exact_nonvacuous :
